@@ -4,7 +4,7 @@ import json, sys
 pid, wt = sys.argv[1], sys.argv[2]
 extra = sys.argv[3] if len(sys.argv) > 3 else ""
 p = [json.loads(l) for l in open('/verif/properties.jsonl') if json.loads(l)['id'] == pid][0]
-print(f"""You are testing how well a verification setup detects regressions in the Go library iotaledger/hive.go. You have your own scratch git worktree of the repository at {wt} (Go 1.23; the repo is 19 separate Go modules, one per top-level directory such as ds/, kvstore/, runtime/, serializer/, core/, app/, ads/, web/). IMPORTANT: work ONLY inside {wt}. Do not read, list or write anything under /verif or /repo, and do not run git commit. Shell env for every command: export GOFLAGS=-mod=mod GOPROXY=off GOSUMDB=off GOTOOLCHAIN=local (no network). Note that each module's tests compile the module-cache copy of its sibling modules, so keep your change AND your demonstration inside ONE module.
+print(f"""You are testing how well a verification setup detects regressions in the Go library iotaledger/hive.go. You have your own scratch git worktree of the repository at {wt} (Go 1.23; the repo is 19 separate Go modules, one per top-level directory such as ds/, kvstore/, runtime/, serializer/, core/, app/, ads/, web/). IMPORTANT: work ONLY inside {wt}. Do not read, list or write anything under /verif or /repo, and do not run git commit and never use `git stash` (the stash is shared between all worktrees of the repository; to get back to a clean tree use `git diff > /tmp/seed/<id>/my.diff; git checkout -- .` instead). Shell env for every command: export GOFLAGS=-mod=mod GOPROXY=off GOSUMDB=off GOTOOLCHAIN=local (no network). Note that each module's tests compile the module-cache copy of its sibling modules, so keep your change AND your demonstration inside ONE module.
 
 The property (a semantic guarantee users rely on):
 
